@@ -916,9 +916,14 @@ def ml_gmm_m_step(
     #      = 1/n * sum (Pxx) - mean^2
     if update_variances:
         logger.debug("Update variances.")
-        machine.variances = statistics.sum_pxx / thresholded_n[
-            :, None
-        ] - np.power(machine.means, 2)
+        # Weighted variance around the machine's means: these are the ML
+        # means only if they were updated above (update_means=True).
+        ml_means = statistics.sum_px / thresholded_n[:, None]
+        machine.variances = (
+            statistics.sum_pxx / thresholded_n[:, None]
+            - np.power(ml_means, 2)
+            + np.power(ml_means - machine.means, 2)
+        )
 
 
 def map_gmm_m_step(
